@@ -13,7 +13,7 @@ CB = ['CbOk', 'CbErr', 'CbPanic']
 PB = ['PubAccept', 'PubError', 'PubPanic']
 BRES = ['BOk', '(BErr EMarshal)', '(BErr ETopic)', '(BErr EHook)', '(BErr EModify)', '(BErr EPublish)', 'BPanicked']
 KIND = ['command', 'event', 'group']
-MARSH = ['json/default', 'json/StructName', 'json/NamedStruct(FullyQualified)', 'json/colliding', 'proto/default', 'proto/NamedStruct(StructName)']
+MARSH = ['json/default', 'json/StructName', 'json/NamedStruct(FullyQualified)', 'json/colliding', 'proto/default', 'proto/NamedStruct(StructName)', 'gogo/default(std fallback)', 'gogo/StructName,no fallback']
 
 TRUSTED_BASE = [
     'modelled, not verified: encoding/json and google.golang.org/protobuf (Section variables enc/dec of CQRS/Model.v; the round-trip law '
@@ -98,7 +98,7 @@ def reg_term(c):
     return '(RegC tab%d %s %s %s %s)' % (c['tab'], C.coq_bool(c['cmd']), C.coq_list(['(Hd %s %s)' % (N(h[0]), N(h[1])) for h in c['handlers']]),
                                        '(Some %s)' % N(c['dup']) if c['dup'] else 'None', C.coq_list(tr))
 
-TYPES = ['', 'CmdA', 'CmdB', 'EvtC', 'Named', 'Bad', 'wrapperspb.StringValue', 'wrapperspb.Int64Value', 'durationpb.Duration']
+TYPES = ['', 'CmdA', 'CmdB', 'EvtC', 'Named', 'Bad', 'wrapperspb.StringValue', 'wrapperspb.Int64Value', 'durationpb.Duration', 'gogotypes.StringValue', 'gogotypes.Int64Value']
 S = ['']
 def sv(i):
     return S[i] if 0 <= i < len(S) else i
